@@ -572,6 +572,11 @@ class CAstTypes(object):
                     arg_name = arg.name
                 args.append((arg_name, self.ast_to_typeid(arg)))
         decl = CTypeStruct(name, args)
+        if ast.decls and ast.name is not None:
+            # A tagged definition nested in another aggregate stays visible
+            type_id = CTypeStruct(ast.name)
+            if not self.is_known_type(type_id):
+                self.add_type(type_id, decl)
         return decl
 
     def ast_to_typeid_union(self, ast):
@@ -586,6 +591,11 @@ class CAstTypes(object):
                     arg_name = arg.name
                 args.append((arg_name, self.ast_to_typeid(arg)))
         decl = CTypeUnion(name, args)
+        if ast.decls and ast.name is not None:
+            # A tagged definition nested in another aggregate stays visible
+            type_id = CTypeUnion(ast.name)
+            if not self.is_known_type(type_id):
+                self.add_type(type_id, decl)
         return decl
 
     def ast_to_typeid_identifiertype(self, ast):
